@@ -15,12 +15,13 @@ def engine_prop(test, quick=800, thorough=60000):
 PURE_ASSUMPTIONS = ["the reference evaluator/model in harness/refmodel is an independent reading of the property statement; inputs come from the stated generator grammar only"]
 
 PROPS = {
-    "C12": {"level": "exploration", "assumptions": ["the informer map is scripted (creation / sync / handler registration outcomes are chosen by the scenario); real informers, list-watch and event delivery by client-go are not executed", "the concurrent part relies on the Go race detector and final-state checks; interleavings are sampled, not enumerated"],
+    "C12": {"level": "exploration", "assumptions": ["in the parts seq / exhaustive / interleave / race the informer map is scripted (creation / sync / handler registration outcomes are chosen by the scenario); the part informers runs the real InformerMap and real client-go informers against a scripted API server (LIST can hang, WATCH connections are counted) but delivers no events; it waits bounded times for goroutines to settle, and only reports what persists", "the concurrent part relies on the Go race detector and final-state checks; interleavings are sampled, not enumerated"],
             "parts": [
                 {"name": "seq", "vehicle": "overlay", "pkg": "internal/dynamiccache", "test": "TestC12Sequences", "quick_checks": 20000, "thorough_checks": 800000, "thorough_shards": 16},
                 {"name": "exhaustive", "vehicle": "overlay", "pkg": "internal/dynamiccache", "test": "TestC12Exhaustive", "quick_checks": 1, "quick_scale": 0, "thorough_scale": 2, "replayable": False},
                 {"name": "interleave", "vehicle": "overlay", "pkg": "internal/dynamiccache", "test": "TestC12Interleave", "quick_checks": 1, "quick_shards": 16, "quick_scale": 1, "thorough_shards": 16, "thorough_scale": 2},
                 {"name": "race", "vehicle": "overlay", "pkg": "internal/dynamiccache", "race": True, "test": "TestC12Race", "quick_checks": 300, "thorough_checks": 20000, "thorough_shards": 8, "replayable": False},
+                {"name": "informers", "vehicle": "overlay", "pkg": "internal/dynamiccache", "test": "TestC12Informers", "quick_checks": 30, "quick_shards": 8, "thorough_checks": 500, "thorough_shards": 16},
             ]},
     "C20": {"level": "exploration", "assumptions": ["the registry pull is replaced by a scripted function (set in-package through the overlay); in the scripted part every scheduling decision between registration, completion and broadcast is made by the scenario; the free-running part samples Go scheduler interleavings under the race detector"],
             "parts": [
